@@ -232,7 +232,7 @@ def texts_equal(chk, pc, a, b):
 
 
 # ---- structural comparison of (concrete) value trees, e.g. two results of the lexer -----------------------------
-def values_differ(p, a, b, ignore=('comments',), path=''):
+def values_differ(p, a, b, ignore=('comments', 'description'), path=''):
     """None if equal; else a short description of the first difference.  Fields named in `ignore` are skipped;
     parser positions (nom Input values) are not part of a parse result and are skipped when both sides are Inputs."""
     if isinstance(a, (Lazy, LazyVec)) or isinstance(b, (Lazy, LazyVec)):
